@@ -920,6 +920,12 @@ class PytatoKeyBuilder(LoopyKeyBuilder):
         self.rec(key_hash, key.dtype)
         super().update_for_numpy_scalar(key_hash, key)
 
+    def update_for_DataWrapper(self, key_hash: Any, key: Any) -> None:
+        # The wrapped data may be a NumPy *scalar*; an integer one hashes like
+        # a Python int (see above), so its type is recorded here.
+        self.rec(key_hash, key.dtype)
+        self.update_for_dataclass(key_hash, key)
+
     def update_for_TaggableCLArray(self, key_hash: Any, key: Any) -> None:
         from arraycontext.impl.pyopencl.taggable_cl_array import (  # pylint: disable=import-error
             TaggableCLArray,
